@@ -60,6 +60,7 @@ type mEndpoint struct {
 	Binding, Location string
 	Index             int
 	Default           *bool
+	RL                *string // ResponseLocation attribute (optional; the IdP must never use it)
 }
 type mKeyDesc struct {
 	Use   string
@@ -81,6 +82,83 @@ type mSPSSO struct {
 type mMeta struct {
 	Entity string
 	Descs  []mSPSSO
+	ViaXML bool // the registry obtains this metadata by parsing an XML document (xml.Unmarshal), not as Go structs
+}
+
+var knownBindings = map[string]bool{saml.HTTPPostBinding: true, saml.HTTPRedirectBinding: true, saml.HTTPArtifactBinding: true,
+	saml.SOAPBinding: true, saml.SOAPBindingV1: true}
+
+func httpURL(s string) bool {
+	u, err := url.Parse(s)
+	return err == nil && (u.Scheme == "http" || u.Scheme == "https")
+}
+
+// xmlParsable: the document the harness would write parses (every endpoint with a known binding has
+// http(s) Location and ResponseLocation), and the metadata has nothing the XML writer below leaves out.
+func (m *mMeta) xmlParsable() bool {
+	for _, d := range m.Descs {
+		if len(d.KDs) > 0 || len(d.Svcs) > 0 {
+			return false
+		}
+		for _, e := range d.ACS {
+			if knownBindings[e.Binding] && (!httpURL(e.Location) || (e.RL != nil && !httpURL(*e.RL))) {
+				return false
+			}
+		}
+	}
+	return true
+}
+
+// expectedACS is the harness's own reading of what the registry holds: for parsed documents the
+// Location of endpoints with unknown bindings is blank; ResponseLocation never matters.
+func (m *mMeta) expectedACS() [][]mEndpoint {
+	var out [][]mEndpoint
+	for _, d := range m.Descs {
+		var l []mEndpoint
+		for _, e := range d.ACS {
+			if m.ViaXML && !knownBindings[e.Binding] {
+				e.Location = ""
+			}
+			l = append(l, e)
+		}
+		out = append(out, l)
+	}
+	return out
+}
+
+// xmlText writes the metadata the way a metadata file carries it.
+func (m *mMeta) xmlText() string {
+	var sb strings.Builder
+	sb.WriteString(`<EntityDescriptor xmlns="urn:oasis:names:tc:SAML:2.0:metadata"` + xmlAttr("entityID", m.Entity) + ">")
+	for di, d := range m.Descs {
+		sb.WriteString(fmt.Sprintf(`<SPSSODescriptor ID="desc%d" protocolSupportEnumeration="urn:oasis:names:tc:SAML:2.0:protocol">`, di))
+		for _, e := range d.ACS {
+			sb.WriteString("<AssertionConsumerService" + xmlAttr("Binding", e.Binding) + xmlAttr("Location", e.Location))
+			if e.RL != nil {
+				sb.WriteString(xmlAttr("ResponseLocation", *e.RL))
+			}
+			sb.WriteString(xmlAttr("index", fmt.Sprint(e.Index)))
+			if e.Default != nil {
+				sb.WriteString(xmlAttr("isDefault", fmt.Sprint(*e.Default)))
+			}
+			sb.WriteString("/>")
+		}
+		sb.WriteString("</SPSSODescriptor>")
+	}
+	sb.WriteString("</EntityDescriptor>")
+	return sb.String()
+}
+
+// build is what the ServiceProviderProvider returns for this metadata.
+func (m *mMeta) build() (*saml.EntityDescriptor, error) {
+	if !m.ViaXML {
+		return m.toSAML(), nil
+	}
+	ed := &saml.EntityDescriptor{}
+	if err := xml.Unmarshal([]byte(m.xmlText()), ed); err != nil {
+		return nil, err
+	}
+	return ed, nil
 }
 
 // registry entry: metadata, os.ErrNotExist, or another error
@@ -119,7 +197,11 @@ func (c mCfg) term() string {
 		emit.Bool(c.Signer != nil && *c.Signer == ecSignerID))
 }
 
-func (e mEndpoint) term() string {
+func (e mEndpoint) term(viaXML bool) string {
+	if viaXML { // the model applies the metadata parser's endpoint rule itself
+		return fmt.Sprintf("(parse_endpoint {| re_binding := %s; re_location := %s; re_response_location := %s; re_index := %s; re_default := %s |})",
+			emit.Str(e.Binding), emit.Str(e.Location), emit.OptStr(e.RL), emit.Z(int64(e.Index)), optBool(e.Default))
+	}
 	return fmt.Sprintf("{| ep_binding := %s; ep_location := %s; ep_index := %s; ep_default := %s |}",
 		emit.Str(e.Binding), emit.Str(e.Location), emit.Z(int64(e.Index)), optBool(e.Default))
 }
@@ -151,10 +233,10 @@ func (a mAttrSvc) term() string {
 	}
 	return fmt.Sprintf("{| as_default := %s; as_requested := %s |}", optBool(a.Default), emit.List(items))
 }
-func (d mSPSSO) term() string {
+func (d mSPSSO) term(viaXML bool) string {
 	var a, k, s []string
 	for _, e := range d.ACS {
-		a = append(a, e.term())
+		a = append(a, e.term(viaXML))
 	}
 	for _, e := range d.KDs {
 		k = append(k, e.term())
@@ -167,7 +249,7 @@ func (d mSPSSO) term() string {
 func (m mMeta) term() string {
 	var d []string
 	for _, e := range m.Descs {
-		d = append(d, e.term())
+		d = append(d, e.term(m.ViaXML))
 	}
 	return fmt.Sprintf("{| md_entity := %s; descriptors := %s |}", emit.Str(m.Entity), emit.List(d))
 }
@@ -192,10 +274,6 @@ func (w mWire) term() string {
 
 // ---------- turning the mirror records into the library's values ----------
 
-func tagOf(di, ei int) string { return fmt.Sprintf("tag:d%de%d", di, ei) }
-
-var tagRe = regexp.MustCompile(`^tag:d(\d+)e(\d+)$`)
-
 // toSAML builds the EntityDescriptor the registry hands to the IdP. Every ACS
 // endpoint carries a unique ResponseLocation (not read by the IdP) so that the
 // harness can tell which registered endpoint was selected even when locations,
@@ -206,10 +284,9 @@ func (m mMeta) toSAML() *saml.EntityDescriptor {
 		sd := saml.SPSSODescriptor{}
 		sd.ProtocolSupportEnumeration = "urn:oasis:names:tc:SAML:2.0:protocol"
 		sd.ID = fmt.Sprintf("desc%d", di)
-		for ei, e := range d.ACS {
-			t := tagOf(di, ei)
+		for _, e := range d.ACS {
 			sd.AssertionConsumerServices = append(sd.AssertionConsumerServices, saml.IndexedEndpoint{
-				Binding: e.Binding, Location: e.Location, Index: e.Index, IsDefault: e.Default, ResponseLocation: &t})
+				Binding: e.Binding, Location: e.Location, Index: e.Index, IsDefault: e.Default, ResponseLocation: e.RL})
 		}
 		for _, k := range d.KDs {
 			kd := saml.KeyDescriptor{Use: k.Use}
@@ -238,8 +315,19 @@ func (m mMeta) toSAML() *saml.EntityDescriptor {
 }
 
 type stubRegistry struct {
-	entries []mRegEntry
-	built   map[int]*saml.EntityDescriptor
+	entries   []mRegEntry
+	built     map[int]*saml.EntityDescriptor
+	buildErrs int
+}
+
+// metaOf returns the model-side metadata behind a descriptor the registry handed out.
+func (r *stubRegistry) metaOf(ed *saml.EntityDescriptor) *mMeta {
+	for i, b := range r.built {
+		if b == ed {
+			return r.entries[i].MD
+		}
+	}
+	return nil
 }
 
 var errLookup = errors.New("registry backend unavailable")
@@ -253,7 +341,12 @@ func (r *stubRegistry) GetServiceProvider(_ *http.Request, id string) (*saml.Ent
 					r.built = map[int]*saml.EntityDescriptor{}
 				}
 				if r.built[i] == nil {
-					r.built[i] = e.MD.toSAML()
+					ed, err := e.MD.build()
+					if err != nil { // the harness only marks parsable documents ViaXML; treat anything else as a backend error
+						r.buildErrs++
+						return nil, errLookup
+					}
+					r.built[i] = ed
 				}
 				return r.built[i], nil
 			case "notexist":
